@@ -18,11 +18,13 @@ indexed.go / storage.go / bolt.go:
                                   area and index area in bijection with the map;
   * `history_refines_map`, `get_returns_last_stored`, `index_bijection`   the same for every history;
   * `pagination_exact`, `nolimit_exact`   `DoListFunc` = filter ▸ drop offset ▸ take limit.
-Stated, not proved (see the `_stmt` definitions at the end): the listing ORDER theorem (prefix scan of the sorted
-bucket = the stored objects sorted by (value, id)) and `Rebuild` being the identity on reachable states — both are
-checked on every run by the spec oracle on the implementation's output and by correspondence.
+  * `bucket_stays_sorted`, `prefix_scan_exact`, `composite_key_order`, `index_listing`, `list_is_page_of_listing`
+                                  every index lists exactly the stored objects, each once, ascending by (value, id),
+                                  and `List`/`ReverseList` with any pattern/offset/limit is the page of that listing;
+  * `rebuild_identity`            `Rebuild` leaves every reachable bucket exactly as it was.
+Nothing is left stated-only.
 -/
-import Kap.Proofs.C15Listing
+import Kap.Proofs.C15Rebuild
 namespace Kap.Props.C15
 open Kap.C15
 
@@ -51,29 +53,29 @@ theorem keys_faithful_on_wf (c : Cfg) (hc : c.wf = true) : KeysOK c (fun o => c.
 
 /-! ### Refinement of the abstract map -/
 
-/-- **One API call** (create / put / replace / delete / reopen, with any fault) from a state in which data area and
-index area are in bijection with the abstract map `m`: the reported result is admissible for the abstract map
-(`specStep`: "exists" / "missing" exactly by the rules, `io` only when a fault was injected, no success when the
-commit fails) and the bijection holds again for the abstract successor. Unique secondary indexes are allowed as
-long as the abstract successor has distinct values on them (`UniqueOK`). -/
+/-- **One API call** (create / put / replace / delete / rebuild / reopen, with any fault) from a sorted bucket in
+which data area and index area are in bijection with the abstract map `m`: the reported result is admissible for the
+abstract map (`specStep`: "exists" / "missing" exactly by the rules, `io` only when a fault was injected, no success
+when the commit fails; `Rebuild` changes nothing) and the bijection holds again for the abstract successor. Unique
+secondary indexes are allowed as long as the abstract successor has distinct values on them (`UniqueOK`). -/
 theorem step_refines_map (c : Cfg) (hc : c.wf = true) (kv : KV) (m : Abs)
-    (hi : Inv c (fun o => c.wfObj o = true) kv m) (op : Op) (hnr : op.isRebuild = false)
+    (hi : Inv c (fun o => c.wfObj o = true) kv m) (hs : Sorted kv) (op : Op)
     (hwf : ∀ o, op.obj? = some o → c.wfObj o = true) (hu : UniqueOK c (specApply m op).1) :
     ∃ m', specStep m op (step c kv op).2 = some m' ∧
       Inv c (fun o => c.wfObj o = true) (step c kv op).1 m' :=
-  step_refines (keysOK_of_wf c hc) hi op hnr hwf hu
+  step_refines_all hc (fun _ h => h) (keysOK_of_wf c hc) hi hs op hwf hu
 
-/-- **Every history** of create / put / replace / delete / reopen with well-formed objects, with a fault injected
+/-- **Every history** of create / put / replace / delete / rebuild / reopen with well-formed objects, with a fault injected
 at any write or commit of any operation, on a well-formed configuration whose unique indexes are on the id:
 all results are admissible for the abstract map and the final bucket is in bijection with the final map. -/
 theorem history_refines_map (c : Cfg) (hc : c.wf = true) (hid : c.uniqueOnIdOnly = true) (ops : List Op)
-    (hops : ∀ op ∈ ops, op.isRebuild = false ∧ ∀ o, op.obj? = some o → c.wfObj o = true) :
+    (hops : ∀ op ∈ ops, ∀ o, op.obj? = some o → c.wfObj o = true) :
     ∃ m, absRun c ops [] [] = some m ∧ Inv c (fun o => c.wfObj o = true) (run c ops) m :=
-  history_refines (keysOK_of_wf c hc) hid ops [] [] (inv_empty c _) hops
+  history_refines_all hc (fun _ h => h) (keysOK_of_wf c hc) hid ops [] [] (inv_empty c _) List.Pairwise.nil hops
 
 /-- **get returns the last value stored under an ID** — after every such history. -/
 theorem get_returns_last_stored (c : Cfg) (hc : c.wf = true) (hid : c.uniqueOnIdOnly = true) (ops : List Op)
-    (hops : ∀ op ∈ ops, op.isRebuild = false ∧ ∀ o, op.obj? = some o → c.wfObj o = true) :
+    (hops : ∀ op ∈ ops, ∀ o, op.obj? = some o → c.wfObj o = true) :
     ∃ m, absRun c ops [] [] = some m ∧
       ∀ id, get c (run c ops) id = match absGet m id with | some o => .ok o | none => .error .missing := by
   obtain ⟨m, hr, hi⟩ := history_refines_map c hc hid ops hops
@@ -83,7 +85,7 @@ theorem get_returns_last_stored (c : Cfg) (hc : c.wf = true) (hid : c.uniqueOnId
 entry (holding its id) in every index, every key of the bucket is the data key of a stored object or the index
 entry of a stored object, and two (index, object) pairs never share an entry. -/
 theorem index_bijection (c : Cfg) (hc : c.wf = true) (hid : c.uniqueOnIdOnly = true) (ops : List Op)
-    (hops : ∀ op ∈ ops, op.isRebuild = false ∧ ∀ o, op.obj? = some o → c.wfObj o = true) :
+    (hops : ∀ op ∈ ops, ∀ o, op.obj? = some o → c.wfObj o = true) :
     ∃ m, absRun c ops [] [] = some m ∧
       (∀ o ∈ m, ∀ i ∈ c.indexes, kvGet (run c ops) (ikey c i o) = some (.ref o.id)) ∧
       (∀ k v, kvGet (run c ops) k = some v →
@@ -108,9 +110,10 @@ example :
       .create ⟨"ab".toList, "g".toList, [], "2".toList⟩ .none,
       .replace ⟨"a".toList, "h".toList, [], "3".toList⟩ .none,
       .create ⟨"a".toList, "g".toList, [], "4".toList⟩ .none,
-      .put ⟨"b".toList, "g".toList, [], "5".toList⟩ (.write 1), .delete "ab".toList .none, .reopen]
+      .put ⟨"b".toList, "g".toList, [], "5".toList⟩ (.write 1), .delete "ab".toList .none, .rebuild (.write 2),
+      .rebuild .none, .reopen]
     c.wf = true ∧ c.uniqueOnIdOnly = true ∧
-      (ops.all (fun op => !op.isRebuild && (match op.obj? with | some o => c.wfObj o | none => true))) = true ∧
+      (ops.all (fun op => match op.obj? with | some o => c.wfObj o | none => true)) = true ∧
       (absRun c ops [] []).isSome = true ∧ (run c ops).length = 3 := by decide
 
 /-! ### Pagination -/
@@ -197,14 +200,14 @@ theorem composite_key_order (va vb a b : Str) (ha : SepSafe va = true) (hb : Sep
     (va ++ '/' :: a < vb ++ '/' :: b) ↔ (va < vb ∨ (va = vb ∧ a < b)) := composite_lt_iff va vb a b ha hb
 
 /-- **Every index lists exactly the stored objects, each once, in index order** — after every history of create /
-put / replace / delete / reopen (faults anywhere): the unbounded `List(index, "", 0, -1)` succeeds and its answer is
+put / replace / delete / rebuild / reopen (faults anywhere): the unbounded `List(index, "", 0, -1)` succeeds and its answer is
 strictly ascending by (index value, id) and has exactly the objects of the abstract map as members. -/
 theorem index_listing (c : Cfg) (hc : c.wf = true) (hid : c.uniqueOnIdOnly = true) (ops : List Op)
-    (hops : ∀ op ∈ ops, op.isRebuild = false ∧ ∀ o, op.obj? = some o → OrderWF c o) :
+    (hops : ∀ op ∈ ops, ∀ o, op.obj? = some o → OrderWF c o) :
     ∃ m, absRun c ops [] [] = some m ∧
       ∀ i ∈ c.indexes, ∃ l, list c (run c ops) i.name [] 0 (-1) false = .ok l ∧ IsListing i.sel m l := by
   have hk : KeysOK c (OrderWF c) := (keysOK_of_wf c hc).mono (fun o ho => ho.1)
-  obtain ⟨m, hr, hi⟩ := history_refines hk hid ops [] [] (inv_empty c _) hops
+  obtain ⟨m, hr, hi⟩ := history_refines_all hc (fun o ho => ho.1) hk hid ops [] [] (inv_empty c _) List.Pairwise.nil hops
   refine ⟨m, hr, ?_⟩
   intro i hi'
   obtain ⟨l, hres, hlist⟩ := listing_of_inv hc (fun o ho => ho.1) (fun o ho => ho.2) hi (run_sorted c ops) i hi'
@@ -219,14 +222,14 @@ theorem index_listing (c : Cfg) (hc : c.wf = true) (hid : c.uniqueOnIdOnly = tru
 such history, for every index, pattern, offset, limit (negative = no limit) and direction: `List`/`ReverseList`
 answers exactly `specPage` of THE listing `l` (filter by the pattern on the id ▸ drop offset ▸ take limit). -/
 theorem list_is_page_of_listing (c : Cfg) (hc : c.wf = true) (hid : c.uniqueOnIdOnly = true) (ops : List Op)
-    (hops : ∀ op ∈ ops, op.isRebuild = false ∧ ∀ o, op.obj? = some o → OrderWF c o) :
+    (hops : ∀ op ∈ ops, ∀ o, op.obj? = some o → OrderWF c o) :
     ∃ m, absRun c ops [] [] = some m ∧
       ∀ i ∈ c.indexes, ∃ l, IsListing i.sel m l ∧
         ∀ (pat : Str) (off : Nat) (lim : Int) (rev : Bool),
           list c (run c ops) i.name pat (off : Int) lim rev
             = .ok (specPage (if rev then l.reverse else l) (matchFn pat) (off : Int) lim) := by
   have hk : KeysOK c (OrderWF c) := (keysOK_of_wf c hc).mono (fun o ho => ho.1)
-  obtain ⟨m, hr, hi⟩ := history_refines hk hid ops [] [] (inv_empty c _) hops
+  obtain ⟨m, hr, hi⟩ := history_refines_all hc (fun o ho => ho.1) hk hid ops [] [] (inv_empty c _) List.Pairwise.nil hops
   refine ⟨m, hr, ?_⟩
   intro i hi'
   obtain ⟨l, hres, hlist⟩ := listing_of_inv hc (fun o ho => ho.1) (fun o ho => ho.2) hi (run_sorted c ops) i hi'
@@ -246,12 +249,23 @@ example :
       [⟨"a".toList, "g".toList, [], "4".toList⟩, ⟨"ab".toList, "g".toList, [], "1".toList⟩,
        ⟨"b".toList, "g".toList, [], "3".toList⟩] = true := by decide
 
-/-! ### Stated, not proved (checked on every run by the spec oracle on the implementation and by correspondence) -/
+/-! ### Rebuild and reopen -/
 
-/-- `Rebuild` is the identity on every reachable state (the indexes are a function of the data area). -/
-def rebuild_identity_stmt : Prop :=
-  ∀ (c : Cfg), c.wf = true → c.uniqueOnIdOnly = true → ∀ (ops : List Op),
-    (∀ op ∈ ops, op.isRebuild = false ∧ ∀ o, op.obj? = some o → c.wfObj o = true) →
-    step c (run c ops) (.rebuild .none) = (run c ops, none)
+/-- **`Rebuild` is the identity on every reachable state** (the index area is a function of the data area): after
+every such history `Rebuild` succeeds and the bucket is exactly — key by key — what it was. -/
+theorem rebuild_identity (c : Cfg) (hc : c.wf = true) (hid : c.uniqueOnIdOnly = true) (ops : List Op)
+    (hops : ∀ op ∈ ops, ∀ o, op.obj? = some o → c.wfObj o = true) :
+    step c (run c ops) (.rebuild .none) = (run c ops, none) := by
+  obtain ⟨m, _, hi⟩ := history_refines_map c hc hid ops hops
+  obtain ⟨h1, h2⟩ := update_rebuild_refines hc (fun _ h => h) (keysOK_of_wf c hc) hi (run_sorted c ops) .none
+  have h3 : (step c (run c ops) (.rebuild .none)).2 = none := by
+    cases hres : (update (run c ops) Fault.none fun t => rebuildTx c t).2 with
+    | none => exact hres
+    | some e => rw [hres] at h1; cases e <;> simp [specStepCore] at h1
+  exact Prod.ext h2 h3
+
+/- Reopen: no theorem. `step c kv .reopen = (kv, none)` holds by definition — `IndexedStore` holds configuration
+only, so the model has no volatile state. Where reopening is really checked is the tie: the harness closes and
+reopens the real Bolt file after EVERY operation and the raw bucket is compared key by key with the model. -/
 
 end Kap.Props.C15
